@@ -634,16 +634,17 @@ func c16Handlers(c *Ctx, r *Report) {
 		}
 		return true, "orders by " + strings.Join(fields, ", ")
 	}
-	ok1, w1 := lessOK("unknownFieldSlice", "MesgNum", "FieldNum")
-	r.check(ok1, "C16-R5-reporting", "unknownFieldSlice.Less", "", w1, w1)
-	if ok1 {
-		// lexicographic shape: if a<b true; else if a>b false; return f<f
-		fd := c.decl(c.fn(c.fit, "unknownFieldSlice.Less"))
-		src := exprStrBody(fd)
-		r.check(strings.Contains(src, "p[i].MesgNum > p[j].MesgNum"), "C16-R5-reporting", "unknownFieldSlice.Less/lexicographic", c.pos(fd.Pos()), "field number only breaks ties of the message number", "Less is not lexicographic on (MesgNum, FieldNum)")
+	// Less is decided semantically from its path terms: for every combination of the orderings
+	// (<, =, >) of the compared field pairs, the value returned must be that of the lexicographic
+	// order on the named fields — whatever tests and branch order the source uses.
+	for _, e := range []struct {
+		typ    string
+		fields []string
+	}{{"unknownFieldSlice", []string{"MesgNum", "FieldNum"}}, {"unknownMessageSlice", []string{"MesgNum"}}} {
+		ok, why := c16LessLexicographic(c, e.typ, e.fields)
+		r.check(ok, "C16-R5-reporting", e.typ+".Less", "", why, e.typ+".Less is not the lexicographic order on "+strings.Join(e.fields, ", ")+": "+why)
 	}
-	ok2, w2 := lessOK("unknownMessageSlice", "MesgNum")
-	r.check(ok2, "C16-R5-reporting", "unknownMessageSlice.Less", "", w2, w2)
+	_ = lessOK
 }
 
 func exprStrBody(fd *ast.FuncDecl) string {
@@ -658,4 +659,149 @@ func exprStrBody(fd *ast.FuncDecl) string {
 		return true
 	})
 	return sb.String()
+}
+
+// c16LessLexicographic: Less(i, j) of the slice type orders by the named struct fields of its
+// elements, lexicographically. The function's path terms (symexec.go) are evaluated for each of
+// the 3^k sign combinations of (elem[i].F - elem[j].F), F in fields; every comparison term is
+// between p0[p1].fN and p0[p2].fN.
+func c16LessLexicographic(c *Ctx, typ string, fields []string) (bool, string) {
+	fn := c.ssaFn(c.fn(c.fit, typ+".Less"))
+	if fn == nil {
+		return false, "Less not found"
+	}
+	o := symPaths(fn, nil, 2)
+	if o.why != "" {
+		return false, "not recognised: " + o.why
+	}
+	// field index of each named field in the element struct
+	tobj := c.fit.Types.Scope().Lookup(typ)
+	if tobj == nil {
+		return false, "type not found"
+	}
+	sl, ok := tobj.Type().Underlying().(*types.Slice)
+	if !ok {
+		return false, "not a slice type"
+	}
+	st, ok := sl.Elem().Underlying().(*types.Struct)
+	if !ok {
+		return false, "elements are not structs"
+	}
+	var idx []int
+	for _, f := range fields {
+		k := -1
+		for i := 0; i < st.NumFields(); i++ {
+			if st.Field(i).Name() == f {
+				k = i
+			}
+		}
+		if k < 0 {
+			return false, "field " + f + " not found"
+		}
+		idx = append(idx, k)
+	}
+	// evaluate "(op A B)" under a sign assignment; A, B of the form *p0[p1].fN / *p0[p2].fN
+	evalCmp := func(term string, sign map[int]int) (bool, bool) {
+		term = strings.TrimSuffix(strings.TrimPrefix(term, "("), ")")
+		parts := strings.Fields(term)
+		if len(parts) != 3 {
+			return false, false
+		}
+		side := func(s string) (int, int, bool) { // (which index param, field index)
+			for _, p := range []int{1, 2} {
+				pre := fmt.Sprintf("*p0[p%d].f", p)
+				if strings.HasPrefix(s, pre) {
+					var n int
+					if _, err := fmt.Sscanf(s[len(pre):], "%d", &n); err == nil {
+						return p, n, true
+					}
+				}
+			}
+			return 0, 0, false
+		}
+		pa, fa, oka := side(parts[1])
+		pb, fb, okb := side(parts[2])
+		if !oka || !okb || fa != fb || pa == pb {
+			return false, false
+		}
+		sg, known := sign[fa]
+		if !known {
+			return false, false
+		}
+		if pa == 2 { // comparing elem[j] with elem[i]
+			sg = -sg
+		}
+		switch parts[0] {
+		case "<":
+			return sg < 0, true
+		case "<=":
+			return sg <= 0, true
+		case ">":
+			return sg > 0, true
+		case ">=":
+			return sg >= 0, true
+		case "==":
+			return sg == 0, true
+		case "!=":
+			return sg != 0, true
+		}
+		return false, false
+	}
+	n := 1
+	for range idx {
+		n *= 3
+	}
+	for combo := 0; combo < n; combo++ {
+		sign := map[int]int{}
+		x := combo
+		want := false
+		decided := false
+		for _, k := range idx {
+			sg := x%3 - 1
+			x /= 3
+			sign[k] = sg
+			if !decided && sg != 0 {
+				want, decided = sg < 0, true
+			}
+		}
+		matched := 0
+		for _, p := range o.paths {
+			consistent := true
+			for _, cnd := range p.conds {
+				v, ok := evalCmp(cnd[2:], sign)
+				if !ok {
+					return false, "a test compares something other than the same field of the two elements: " + cnd
+				}
+				if v != (cnd[0] == 'T') {
+					consistent = false
+				}
+			}
+			if !consistent {
+				continue
+			}
+			matched++
+			if len(p.rets) != 1 {
+				return false, "result arity"
+			}
+			got := false
+			switch p.rets[0] {
+			case "true":
+				got = true
+			case "false":
+			default:
+				v, ok := evalCmp(p.rets[0], sign)
+				if !ok {
+					return false, "the result is not a comparison of the same field of the two elements: " + p.rets[0]
+				}
+				got = v
+			}
+			if got != want {
+				return false, fmt.Sprintf("for orderings %v of (%s) it returns %v, the lexicographic order gives %v", sign, strings.Join(fields, ", "), got, want)
+			}
+		}
+		if matched != 1 {
+			return false, fmt.Sprintf("%d paths apply to one ordering of the fields", matched)
+		}
+	}
+	return true, fmt.Sprintf("lexicographic on (%s) for all %d orderings of the compared fields", strings.Join(fields, ", "), n)
 }
